@@ -65,6 +65,8 @@ impl SNode {
     /// A report from the (scripted) handler to the service.
     pub async fn inject(&mut self, ev: HandlerOut) {
         if self.to_service.try_send(ev).is_err() {
+            // a service task that panicked closes the channel: that is the subject's failure
+            crate::mc::check_subject_panic();
             crate::mc::machinery("scripted handler channel full or closed");
         }
         rt::settle().await;
